@@ -49,7 +49,18 @@ func looksNotInitialized(errText string) bool {
 	return strings.Contains(e, "not initialized") || strings.Contains(e, "not been initialized") || strings.Contains(e, "uninitialized")
 }
 
+func looksAlreadyInitialized(errText string) bool {
+	return strings.Contains(strings.ToLower(errText), "already initialized")
+}
+
 type judgeStats struct {
+	// handshakes with a fault at one step (faults.go)
+	faultInitFail, faultInitFailLate, faultInitOK, faultNotReached int // Late = failed at a step after the initialize answer had arrived
+	opsRefusedAfterFault, stateAfterFault                          int
+	reinitOKAfterFault, reinitFailAfterFault                       int
+	opsOKAfterReinit                                               int
+	cells                                                          map[string]bool // (step, kind, outcome) observed with the fault applied
+
 	histories, steps                     int
 	opsRefused, opsOK, opsFailedAfter    int
 	initOK, initFail, secondInitRefused  int
@@ -81,6 +92,12 @@ func judgeHistory(r *vh.Run, h *HistObs, st *judgeStats) {
 	// disconnected) or not (and stays initialized) the statement leaves open; until the next Close or successful
 	// Initialize both are accepted and calls are only counted. Close ends it: the client must be uninitialized.
 	uncertain := false
+	// lastFault: the cell of the handshake that failed with its fault applied and after which nothing but
+	// operations / GetState happened; afterReinit: a handshake succeeded on a client that had such a failure
+	lastFault, afterReinit := "", false
+	if st.cells == nil {
+		st.cells = map[string]bool{}
+	}
 	for i := range h.Steps {
 		s := &h.Steps[i]
 		st.steps++
@@ -108,6 +125,14 @@ func judgeHistory(r *vh.Run, h *HistObs, st *judgeStats) {
 						r.Violation(fmt.Sprintf("C16|client|%s|initialize|answer=%s|reported-success", ck, s.Mode),
 							fmt.Sprintf("%s client: Initialize returned success although the server's behaviour was %q", ck, s.Mode), wit(i))
 					}
+					if s.Mode == mFault && s.Fired > 0 && faultPrecludesAnswer(s.At) {
+						r.Violation(fmt.Sprintf("C16|client|%s|initialize|fault-at=%s|%s|reported-success", ck, s.At, s.Fault),
+							fmt.Sprintf("%s client: Initialize returned success although the handshake was cut at step %q (%s) before any initialize answer arrived", ck, s.At, s.Fault), wit(i))
+					}
+					if s.Mode == mFault && s.Fired > 0 && faultKillsServer(s.Fault) {
+						r.Distinct(fmt.Sprintf("client|%s|init-after-server-death|fault=%s/%s|ok-server-gone-again", ck, s.At, s.Fault))
+						break // initialized again, and the server is gone again: still open
+					}
 					// the client noticed the death and shook hands again (or its server came back): initialized for certain
 					m.state, m.phase = sInitialized, ""
 					uncertain = false
@@ -131,6 +156,43 @@ func judgeHistory(r *vh.Run, h *HistObs, st *judgeStats) {
 				r.Distinct(fmt.Sprintf("client|%s|second-init|mode=%s", ck, s.Mode))
 				break
 			}
+			if !s.OK && looksAlreadyInitialized(s.Err) {
+				r.Violation(fmt.Sprintf("C16|client|%s|initialize|%s|refused-as-already-initialized", ck, phase),
+					fmt.Sprintf("%s client: Initialize on an uninitialized client (%s) was refused with %q (%d request(s) on the wire)", ck, phase, s.Err, s.Touch), wit(i))
+			}
+			if lastFault != "" && s.Mode != mFault {
+				// the fault is gone: either the handshake succeeds now, or the client stays consistently uninitialized (both conform)
+				if s.OK {
+					st.reinitOKAfterFault++
+					afterReinit = true
+				} else {
+					st.reinitFailAfterFault++
+				}
+				r.Distinct(fmt.Sprintf("client|%s|init-after-fault|%s|mode=%s|ok=%v", ck, lastFault, s.Mode, s.OK))
+			}
+			lastFault = ""
+			if s.Mode == mFault {
+				cell := fmt.Sprintf("at=%s|%s", s.At, s.Fault)
+				switch {
+				case s.Fired == 0:
+					st.faultNotReached++
+				case s.OK:
+					st.faultInitOK++
+					st.cells[cell+"|ok"] = true
+					if faultPrecludesAnswer(s.At) {
+						r.Violation(fmt.Sprintf("C16|client|%s|initialize|fault-at=%s|%s|reported-success", ck, s.At, s.Fault),
+							fmt.Sprintf("%s client: Initialize returned success although the handshake was cut at step %q (%s) before any initialize answer arrived", ck, s.At, s.Fault), wit(i))
+					}
+				default:
+					st.faultInitFail++
+					if !faultPrecludesAnswer(s.At) {
+						st.faultInitFailLate++
+					}
+					st.cells[cell+"|failed"] = true
+					lastFault = cell
+				}
+				r.Distinct(fmt.Sprintf("client|%s|init-fault|%s|%s|fired=%v|ok=%v", ck, phase, cell, s.Fired > 0, s.OK))
+			}
 			if s.OK {
 				class = "init-ok"
 				st.initOK++
@@ -152,7 +214,15 @@ func judgeHistory(r *vh.Run, h *HistObs, st *judgeStats) {
 			if s.Mode != mHealthy && s.Mode != mNoSess {
 				fresh = false
 			}
+			if s.Mode == mFault {
+				class = fmt.Sprintf("init-fault-%s-%s-ok=%v", s.At, s.Fault, s.OK)
+			}
 			m.initialize(s.OK)
+			if s.OK && s.Mode == mFault && s.Fired > 0 && faultKillsServer(s.Fault) {
+				// the handshake was reported successful and its server is gone: same open situation as a server death
+				uncertain = true
+				st.srvDiedInitialized++
+			}
 			r.Distinct(fmt.Sprintf("client|%s|init|%s|mode=%s|ok=%v", ck, phase, s.Mode, s.OK))
 		case "op":
 			if uncertain {
@@ -173,14 +243,24 @@ func judgeHistory(r *vh.Run, h *HistObs, st *judgeStats) {
 				case s.OK:
 					r.Violation(fmt.Sprintf("C16|client|%s|op=%s|%s|no-error", ck, s.Op, phase),
 						fmt.Sprintf("%s client: %s in the uninitialized state (%s) returned no error", ck, s.Op, phase), wit(i))
+				case !looksNotInitialized(s.Err):
+					r.Violation(fmt.Sprintf("C16|client|%s|op=%s|%s|other-error", ck, s.Op, phase),
+						fmt.Sprintf("%s client: %s in the uninitialized state (%s) failed with %q, which is not a not-initialized error", ck, s.Op, phase, s.Err), wit(i))
 				default:
 					st.opsRefused++
+					if lastFault != "" {
+						st.opsRefusedAfterFault++
+						r.Distinct(fmt.Sprintf("client|%s|op-refused-after-fault|%s", ck, lastFault))
+					}
 				}
 				r.Distinct(fmt.Sprintf("client|%s|op=%s|%s|%s", ck, s.Op, before, phase))
 			} else {
 				class = "op"
 				if s.OK {
 					st.opsOK++
+					if afterReinit {
+						st.opsOKAfterReinit++
+					}
 					r.Distinct(fmt.Sprintf("client|%s|op=%s|%s|ok", ck, s.Op, before))
 				} else {
 					st.opsFailedAfter++
@@ -198,11 +278,15 @@ func judgeHistory(r *vh.Run, h *HistObs, st *judgeStats) {
 				uncertain = false
 			}
 			m.close()
+			lastFault, afterReinit = "", false
 			fresh = false
 			everClosed = true
 			r.Distinct(fmt.Sprintf("client|%s|close|%s", ck, before))
 		case "getstate":
 			class = "getstate"
+			if lastFault != "" {
+				st.stateAfterFault++
+			}
 			r.Distinct(fmt.Sprintf("client|%s|getstate|%s|%s", ck, before, phase))
 		}
 		if uncertain {
